@@ -646,6 +646,12 @@ func (s *Session) evalCall(se *SpecEnv, x *SCall) Val {
 				return untypedInt(Ite(Le(a, b), a, b))
 			}
 			return untypedInt(Ite(Ge(a, b), a, b))
+		case "pow2":
+			a := s.evalSpec(se, x.Args[0]).T0()
+			if isNumeral(a.S) {
+				return untypedInt(bigT(pow2big(atoi(a.S))))
+			}
+			return untypedInt(app(SInt, "pow2", a))
 		case "abs":
 			a := s.evalSpec(se, x.Args[0]).T0()
 			return untypedInt(Ite(Ge(a, I(0)), a, Neg(a)))
@@ -667,6 +673,66 @@ func (s *Session) evalCall(se *SpecEnv, x *SCall) Val {
 				return scalar(types.Typ[types.String], s.uf("bytes2str", SInt, Select(h, v.L[0]), v.L[1], v.L[2]))
 			}
 			return scalar(types.Typ[types.String], v.T0())
+		case "astime": // astime(x): the time.Time boxed in interface value x (e.g. the content of an atomic.Value)
+			v := s.evalSpec(se, x.Args[0])
+			tt := s.eng.typesPkg("time").Scope().Lookup("Time").Type()
+			return s.load(se.st, &Loc{Kind: "F", TypeKey: typeKey(tt), Ref: s.uf("payload", SInt, v.T0()), Typ: tt})
+		case "unbox": // unbox(x, T): the value of struct type T boxed in interface value x
+			v := s.evalSpec(se, x.Args[0])
+			var tn string
+			switch a := x.Args[1].(type) {
+			case *SIdent:
+				tn = a.Name
+			case *SSel:
+				tn = a.X.(*SIdent).Name + "." + a.Name
+			}
+			tt := s.resolveType(se.pkg, tn)
+			kind := "P"
+			if _, isStruct := tt.Underlying().(*types.Struct); isStruct {
+				kind = "F"
+			}
+			return s.load(se.st, &Loc{Kind: kind, TypeKey: typeKey(tt), Ref: s.uf("payload", SInt, v.T0()), Typ: tt})
+		case "asptr": // asptr(x, T): the *T stored in interface value x
+			v := s.evalSpec(se, x.Args[0])
+			var tn string
+			switch a := x.Args[1].(type) {
+			case *SIdent:
+				tn = a.Name
+			case *SSel:
+				tn = a.X.(*SIdent).Name + "." + a.Name
+			}
+			tt := s.resolveType(se.pkg, tn)
+			return scalar(types.NewPointer(tt), s.uf("payload", SInt, v.T0()))
+		case "typeisptr": // typeisptr(x, T): interface value x holds a *T
+			v := s.evalSpec(se, x.Args[0])
+			var tn string
+			switch a := x.Args[1].(type) {
+			case *SIdent:
+				tn = a.Name
+			case *SSel:
+				tn = a.X.(*SIdent).Name + "." + a.Name
+			}
+			tt := types.NewPointer(s.resolveType(se.pkg, tn))
+			return boolVal(And(Not(Eq(v.T0(), I(0))), Eq(s.uf("typeof", SInt, v.T0()), s.typeTag(tt))))
+		case "zerotime":
+			return zeroVal(s.eng.typesPkg("time").Scope().Lookup("Time").Type())
+		case "istime": // interface value holds a time.Time (boxed copy, an object that already exists)
+			v := s.evalSpec(se, x.Args[0])
+			tt := s.eng.typesPkg("time").Scope().Lookup("Time").Type()
+			p := s.uf("payload", SInt, v.T0())
+			return boolVal(And(Not(Eq(v.T0(), I(0))), Eq(s.uf("typeof", SInt, v.T0()), s.typeTag(tt)), Gt(p, I(0)), Le(p, se.st.Top)))
+		case "tdiv": // Go's truncated integer division
+			a := s.evalSpec(se, x.Args[0]).T0()
+			b := s.evalSpec(se, x.Args[1]).T0()
+			return untypedInt(s.truncDiv(a, b, types.Typ[types.Int64]))
+		case "last": // last("F"): ghost clock value at the most recent call of event function F (0 = never)
+			name := x.Args[0].(*SStr).V
+			return untypedInt(Select(s.ghostGet(se.st, "evlast"), s.strLit(name)))
+		case "lastok": // lastok("F"): boolean result of the most recent call of event function F
+			name := x.Args[0].(*SStr).V
+			return boolVal(Eq(Select(s.ghostGet(se.st, "evres"), s.strLit(name)), I(1)))
+		case "lastnow": // nanosecond reading of the most recent time.Now() call
+			return untypedInt(Select(s.ghostGet(se.st, "evres"), s.strLit("time.Now")))
 		case "isnil":
 			v := s.materialize(s.evalSpec(se, x.Args[0]))
 			return boolVal(Eq(v.L[0], I(0)))
